@@ -33,7 +33,7 @@ from infretis.core import tis
 class Spec:
     def __init__(self, B=3, workers=1, moves=None, cap=None, maxlength=12, alphabet="sh",
                  engine_layout="single", seed=0, steps=10**6, scripted=True, real_store=False,
-                 n_jumps=None, restart_at=None, delete_old=False, extra=None):
+                 n_jumps=None, restart_at=None, delete_old=False, extra=None, rich=False):
         self.B = B
         self.workers = workers
         self.moves = moves or ["sh"] * B
@@ -48,10 +48,11 @@ class Spec:
         self.n_jumps = n_jumps
         self.delete_old = delete_old
         self.extra = extra or {}  # further scenario.build keywords (lambda_minus_one, quantis, ...)
+        self.rich = rich  # accepted paths span two trajectory files, reversed frames, energies, aux files
 
     def key(self):
         return (self.B, self.workers, tuple(self.moves), self.cap, self.maxlength, self.alphabet,
-                self.engine_layout, self.seed, repr(sorted(self.extra.items())))
+                self.engine_layout, self.seed, repr(sorted(self.extra.items())), self.delete_old)
 
     def __repr__(self):
         return (f"Spec(B={self.B}, W={self.workers}, moves={self.moves}, cap={self.cap}, "
@@ -272,12 +273,33 @@ class L1Run:
                     # the trajectory file an engine would have left in the worker folder
                     from infretis.classes.engines.engineparts import write_xyz_trajectory
 
-                    tag = os.path.join(md["w_folder"], f"{tag}_e{ens_num + 1}.xyz")
-                    for i, x in enumerate(outcome[1 + k]):
-                        write_xyz_trajectory(tag, np.array([[float(x), 0.0, 0.0]]), np.zeros((1, 3)), ["X"],
-                                             np.array([100.0, 100.0, 100.0]), step=i)
+                    base = os.path.join(md["w_folder"], f"{tag}_e{ens_num + 1}")
+                    tag = base + ".xyz"
+                    sites_ = outcome[1 + k]
+                    cut = len(sites_) // 2 if self.spec.rich else len(sites_)
+                    box = np.array([100.0, 100.0, 100.0])
+                    # forward part in <base>.xyz; (rich) backward part in <base>_B.xyz, stored in
+                    # propagation order (i.e. reversed in time) with vel_rev = True, as shooting does
+                    for i, x in enumerate(sites_[cut:] if self.spec.rich else sites_):
+                        write_xyz_trajectory(tag, np.array([[float(x), 0.0, 0.0]]), np.zeros((1, 3)), ["X"], box, step=i)
+                    if self.spec.rich:
+                        for i, x in enumerate(reversed(sites_[:cut])):
+                            write_xyz_trajectory(base + "_B.xyz", np.array([[float(x), 0.0, 0.0]]), np.zeros((1, 3)),
+                                                 ["X"], box, step=i)
+                        for ext in self.state.pstore.keep_traj_fnames if hasattr(self.state.pstore, "keep_traj_fnames") else []:
+                            with open(base + ext, "w") as fh:
+                                fh.write(f"aux data of {tag}\n")
                 trial = lat.mk_path(outcome[1 + k], maxlen=self.spec.maxlength,
                                     generated=("sh", 0.0, 1, 1), tag=tag)
+                if self.spec.real_store and self.spec.rich:
+                    for i, pp in enumerate(trial.phasepoints):
+                        if i < cut:
+                            pp.config = (base + "_B.xyz", cut - 1 - i)
+                            pp.vel_rev = True
+                        else:
+                            pp.config = (tag, i - cut)
+                        if self.accepted_counter % 2:
+                            pp.vpot, pp.ekin = float(pp.order[0]) + 0.125, 0.5
                 trial.status = "ACC"
             else:
                 trial = old
@@ -562,7 +584,8 @@ def _guard(fn):
 def spec_to_json(spec):
     return dict(B=spec.B, workers=spec.workers, moves=spec.moves, cap=spec.cap, maxlength=spec.maxlength,
                 alphabet=spec.alphabet, engine_layout=spec.engine_layout, seed=spec.seed, steps=spec.steps,
-                n_jumps=spec.n_jumps, extra=spec.extra)
+                n_jumps=spec.n_jumps, extra=spec.extra, rich=spec.rich, delete_old=spec.delete_old,
+                real_store=spec.real_store)
 
 
 def spec_from_json(d):
